@@ -126,6 +126,8 @@ type Sim struct {
 	mapN        map[string]int
 	driver      uint64
 	selectLoops map[string]string // identity prefix of a caller -> identity of the select loop (reducer) it started
+	amrSent     map[string]int
+	amrReduced  map[string]int
 	lastG       string
 }
 
@@ -148,6 +150,8 @@ func New(t *tape.Tape) *Sim {
 		TraceCap:    400,
 		traceHash:   1469598103934665603,
 		AutoSites:   map[string]int{},
+		amrSent:     map[string]int{},
+		amrReduced:  map[string]int{},
 		driver:      goid(),
 	}
 }
@@ -505,6 +509,11 @@ func (s *Sim) parkKey(g *gor, label string, key interface{}) {
 		}
 		return
 	}
+	if label == "amr.reduced" {
+		if i := strings.LastIndex(g.id, "."); i > 0 {
+			s.amrReduced[g.id[:i]]++
+		}
+	}
 	p := &parked{g: g, label: label, key: key, wake: make(chan struct{})}
 	if old := s.parked[g.id]; old != nil {
 		s.Anomalies = append(s.Anomalies, "double park of "+g.id)
@@ -558,24 +567,31 @@ func (s *Sim) enabled(now time.Time) (items []enabledItem, nextAt time.Time) {
 		delete(s.toClear, k)
 	}
 	// the reducer of an AsyncMapReduce call selects over two channels; a Go select with two ready
-	// cases chooses at random, so a worker is released into its send only while the reducer of its
-	// call sits in that select: it has announced itself (simhook.SelectLoop), is alive and is not
-	// stopped anywhere (after a reduce, or inside the reduce function of the C20 scenario). Workers
-	// and reducer of one call are children of the caller: same identity prefix.
+	// cases chooses at random, so at most one item is on its way to the reducer at any time: a
+	// worker is released into its send only when every earlier send of the call has been taken by
+	// the reducer. sent counts releases from amr.send.*, reduced counts the reducer's stops at
+	// amr.reduced (one per item, after it); an item is also taken while the reducer is stopped
+	// inside the reduce function (reduce.in, C20's scenario). Workers and reducer of one call are
+	// children of the caller: same identity prefix.
+	inReduce := map[string]bool{}
+	for id, p := range s.parked {
+		if p.label == "reduce.in" {
+			if i := strings.LastIndex(id, "."); i > 0 {
+				inReduce[id[:i]] = true
+			}
+		}
+	}
 	reducerReady := func(workerID string) bool {
 		i := strings.LastIndex(workerID, ".")
 		if i <= 0 {
 			return true
 		}
-		r, ok := s.selectLoops[workerID[:i]]
-		if !ok {
-			return false
+		pfx := workerID[:i]
+		pending := s.amrSent[pfx] - s.amrReduced[pfx]
+		if inReduce[pfx] {
+			pending--
 		}
-		if s.alive[r] <= 0 {
-			return false
-		}
-		_, stopped := s.parked[r]
-		return !stopped
+		return pending <= 0
 	}
 	for id, p := range s.parked {
 		if p.key != nil && SenderClasses[p.label] && s.outstanding[p.key] && !s.deadKey[p.key] {
@@ -742,6 +758,11 @@ func (s *Sim) Step() (did bool, nextAt time.Time) {
 				s.toClear[k] = true
 			case it.p.label == ReceiverGone:
 				s.deadKey[k] = true
+			}
+		}
+		if it.p.label == "amr.send.res" || it.p.label == "amr.send.err" {
+			if i := strings.LastIndex(it.p.g.id, "."); i > 0 {
+				s.amrSent[it.p.g.id[:i]]++
 			}
 		}
 		delete(s.parked, it.p.g.id)
